@@ -180,7 +180,9 @@ TEXT = {
   "level": "Theorem C10_holds: for every history the C10 monitor accepts the model trace - after a check or update whose response lists n as rolled back, "
            "n has no artifact and is not the next-boot patch after that call and every later one, until an update installs n again (or the release changes / "
            "state files are damaged). Invariant RollD pushed through every patch-manager function, section and call (step_roll); the install path is handled "
-           "by the outcome case lemma afterCheck_cases. The same monitor runs on the real library's traces.",
+           "by the outcome case lemma afterCheck_cases. The same monitor runs on the real library's traces. Theorem C10_again_holds (Props/C10Again.lean, monitor mon10s on "
+           "model and real traces): the end of the guarantee - an update whose well-formed response offers a number that is rolled back (earlier, or by that very response) "
+           "is never answered 'no update' (shouldInstall_rolled: should_install_patch never takes a rolled-back number for the installed one; afterCheck_rolled_offer).",
   "design_ref": "DESIGN.md section 4, C10",
   "note": "Lean kernel; model/code correspondence sampled by this run's campaign.",
   "technique": "Lean 4 theorem (inductive invariant over all histories) + differential correspondence check",
